@@ -190,7 +190,8 @@ def _integrate_over(expr: ast.AST, generators: Sequence[ast.comprehension]) -> a
             if isinstance(comprehension.iter, ast.Set):
                 values = set(values)
 
-            sym_expr = sum(sym_expr.subs(integrand, value) for value in values)
+            # sympy.Add rather than sum(): the sum over no values is a sympy zero, not an int
+            sym_expr = sympy.Add(*(sym_expr.subs(integrand, value) for value in values))
 
         else:
             raise NotImplementedError(f"Cannot parse iterator: {comprehension.iter}")
